@@ -510,18 +510,20 @@ func (t *Transaction) Wait(table string, timeout *int, where []ovsdb.Condition, 
 		expected = append(expected, info)
 	}
 
-	// without 'columns' all columns are compared (RFC 7047 5.2.6)
-	if len(columns) == 0 {
+	// without 'columns' all columns are compared (RFC 7047 5.2.6), and a
+	// column an expected row leaves out has its default value there
+	allColumns := len(columns) == 0
+	if allColumns {
 		for column := range realTable.Columns {
 			columns = append(columns, column)
 		}
 	}
 
 	// a row matches an expected row if they are equal in every column of
-	// 'columns' that the expected row provides
+	// 'columns' (of those the expected row provides, when 'columns' is given)
 	matches := func(found *mapper.Info, i int) (bool, error) {
 		for _, column := range columns {
-			if _, ok := rows[i][column]; !ok {
+			if _, ok := rows[i][column]; !ok && !allColumns {
 				continue
 			}
 			x, err := expected[i].FieldByColumn(column)
